@@ -4,8 +4,12 @@ sys.path.insert(0, os.path.dirname(os.path.abspath(__file__)))
 import common
 common.repo_on_path()
 rc = 0
+import json
+claimed = {c["property_id"].lower() for c in json.load(open(os.path.join(common.VERIF, "MANIFEST.json")))["checks"]}
 for f in sorted(glob.glob(os.path.join(os.path.dirname(os.path.abspath(__file__)), "props", "c[0-9][0-9].py"))):
     pid = os.path.basename(f)[:-3]
+    if pid not in claimed:
+        continue
     try:
         mod = importlib.import_module("props." + pid)
         text = mod.extract()
